@@ -23,15 +23,20 @@ inline Poly pdivs(const Poly &a, const Real &c) {
 template <class E, size_t o, size_t fo>
 void tree_case(size_t n) {
   auto &En = Engine::get();
-  auto g = gridvars(n);
+  auto g = gridpoints(n);   // symbolic points; the fixed rational grid in the large variant (-DFIXED_GRID -DLARGE)
   Grid<Real> grid(g);
   Real x = Real::var("x"), c = Real::var("c");
   if (E::divides_by_c) En.assume(sym::ne(c, Real(0)));
   bool ctl = false;
   std::vector<std::pair<size_t, size_t>> one{{0, n}};
-  for (auto ws : windows(n)) {
+#ifdef LARGE
+  auto all_ws = windows_sample(n, 8, 71), all_wv = windows_sample(n, 4, 72);
+#else
+  auto all_ws = windows(n), all_wv = windows(n);
+#endif
+  for (auto ws : all_ws) {
     auto s = mkspline<o>(grid, ws.first, ws.second, "s");
-    for (auto wv : (E::uses_factor ? windows(n) : one)) {
+    for (auto wv : (E::uses_factor ? all_wv : one)) {
       auto v = mkspline<fo>(grid, wv.first, wv.second, "v");
       // the operator is built from NAMED scalar and spline objects which are overwritten before it is applied: an operator is a value,
       // it must act with the operands it was built from
@@ -65,7 +70,15 @@ void add_tree_o(std::vector<Case> &cases) {
   }
   if constexpr (o > 0) add_tree_o<E, o - 1>(cases);
 }
+#ifdef LARGE
+template <class E>
+void add_tree(std::vector<Case> &cases) {
+  cases.push_back({std::string("expr-large/") + E::name + "/o1/f" + std::to_string(FO) + "/n" + std::to_string(LARGE), [=] { tree_case<E, 1, FO>(LARGE); }});
+  cases.push_back({std::string("expr-large/") + E::name + "/o2/f" + std::to_string(FO) + "/n" + std::to_string(LARGE), [=] { tree_case<E, 2, FO>(LARGE); }});
+}
+#else
 template <class E>
 void add_tree(std::vector<Case> &cases) {
   add_tree_o<E, MAXO>(cases);
 }
+#endif
